@@ -298,10 +298,15 @@ impl Model for M {
 				w.mine("M").unwrap();
 				out.label = "ok".into();
 			}
-			Op::Refresh => match w.w("A").refresh() {
-				Ok(_) => out.label = "ok".into(),
-				Err(e) => out.label = err_label(&e),
-			},
+			Op::Refresh => {
+				// the counterparty keeps its books current too (a replay that reaches it after it has
+				// seen the payment confirmed is part of the alphabet)
+				let _ = w.w("B").refresh();
+				match w.w("A").refresh() {
+					Ok(_) => out.label = "ok".into(),
+					Err(e) => out.label = err_label(&e),
+				}
+			}
 		}
 		set_slots(w, &sl);
 		if out.label.starts_with("err") {
@@ -491,10 +496,47 @@ pub fn run(_args: &[String]) -> i32 {
 	};
 	let e = explore(&m, "c03", &caps);
 	report_explored(&mut rep, "C03", "bfs", &e);
+	// directed histories beyond the BFS depth: a complete exchange, confirmed and seen by both
+	// wallets, then every step of it repeated
+	let mut directed = 0usize;
+	{
+		let send: Vec<Op> = vec![Op::Init { slot: 0, use_all: false }, Op::Receive { slot: 0 }, Op::Lock { slot: 0 }, Op::Finalize { slot: 0 }, Op::Post { slot: 0 }, Op::Mine, Op::Refresh];
+		let inv: Vec<Op> = vec![Op::InitInvoice { slot: 0 }, Op::Lock { slot: 0 }, Op::Finalize { slot: 0 }, Op::Post { slot: 0 }, Op::Mine, Op::Refresh];
+		let mut paths: Vec<Vec<Op>> = vec![];
+		for base in [send, inv].iter() {
+			for again in [Op::Receive { slot: 0 }, Op::Lock { slot: 0 }, Op::Finalize { slot: 0 }, Op::Cancel { slot: 0 }, Op::Post { slot: 0 }].iter() {
+				if base.iter().any(|o| std::mem::discriminant(o) == std::mem::discriminant(again)) || matches!(again, Op::Cancel { .. }) {
+					let mut p = base.clone();
+					p.push(again.clone());
+					paths.push(p.clone());
+					p.push(Op::Mine);
+					p.push(Op::Refresh);
+					paths.push(p);
+				}
+			}
+		}
+		let root = scratch_root();
+		let res = par_map(&paths, workers(), |i, p| {
+			// every prefix end is checked by run_path only at the last step: run the two tails separately
+			run_path(&m, &format!("{}/c03-d{}", root, i), p)
+		});
+		for (p, r) in paths.iter().zip(res.into_iter()) {
+			directed += p.len();
+			match r {
+				Ok(problems) => {
+					for (k, v) in problems {
+						rep.add_finding(Finding { key: format!("C03/{}", k), what: format!("{} — after {:?}", v, p), replay: json!({"path": p}) });
+					}
+				}
+				Err(e) => return rep.finish(Some(format!("directed path {:?}: {}", p, e))),
+			}
+		}
+		rep.cov("directed_paths", json!(paths.len()));
+	}
 	rep.cov("states", json!(e.states));
-	rep.cov("transitions", json!(e.transitions));
-	rep.cov("traces_validated_against_impl", json!(e.transitions));
-	rep.cov("evaluations", json!(e.transitions));
+	rep.cov("transitions", json!(e.transitions + directed));
+	rep.cov("traces_validated_against_impl", json!(e.transitions + directed));
+	rep.cov("evaluations", json!(e.transitions + directed));
 	rep.cov("distinct_nontrivial", json!(e.states));
 	rep.cov("rule", json!("breadth-first search over operation histories on a real two-wallet world; states deduplicated by canonical projection; distinct_nontrivial = distinct reachable states"));
 	rep.cov("exhaustive", json!(e.cap_hit.is_none()));
